@@ -148,9 +148,10 @@ def make_transformer(kind):
 
 
 class Model:
-    def __init__(self, mode: str, universe: str = "full"):
+    def __init__(self, mode: str, universe: str = "full", precalc: bool = False):
         self.mode = mode
         self.universe = universe
+        self.precalc = precalc   # calculate_xpath() on every attached root after each replayed prefix operation
         self.inner = LF if universe == "falsy" else LI
 
     # ---- world --------------------------------------------------------------------------------------
@@ -311,8 +312,19 @@ class Model:
         del new
         if not judge:
             # replay: a rejected / undocumented prefix op is a dead end recorded as such by the explorer
+            if status == "ok" and self.precalc:
+                # the judged operation then meets a world whose stored xpaths are up to date, and the invariant
+                # calculates them a second time after the change
+                for r in w.slots:
+                    if r is not None and not r.detached and r.parent is None:
+                        try:
+                            r.calculate_xpath()
+                        except Exception:  # noqa: BLE001
+                            pass
             return "ok" if status == "ok" else "prune"
         case = {"mode": self.mode, "universe": self.universe, "history": [list(o) for o in hist] + [list(op)]}
+        if self.precalc:
+            case["precalc"] = True
         rec.sample(case)
         rec.count("evaluations")
         rec.outcome(f"{op[0]}:{status if status != 'rejected' else errname}")
